@@ -1,3 +1,6 @@
 From Coq Require Extraction ExtrOcamlBasic.
-From PV Require Import Lib.Bytes Lib.PanicRes Model.Indent Model.SepWriter Spec.SepSpec.
-Extraction "C01_model.ml" run sw_run disciplined written in_line.
+From PV Require Import Lib.Bytes Lib.PanicRes Model.Indent Model.SepWriter Spec.SepSpec
+  Model.Resolve Spec.ResolveSpec Model.Scope.
+Extraction "C01_model.ml" run sw_run disciplined written in_line
+  resolve_exprs resolve_passes resolve_fuel value_budget
+  scope_run scope_trace scope_bindings observe.
